@@ -1,8 +1,291 @@
-//! C09 harness entry (not implemented yet).
+//! C09: relative placement through `layout21tetris::placer::Placer::place`.
+//!
+//! Case (JSON):
+//!   cells:  [ null | {"x":[..],"y":[..]} ]           cell k is named "c{k}"; null = a Cell without any view
+//!   nodes:  [ NODE ]                                  the pool of placeables; node id = index = pointer identity
+//!   runs:   [ {"instances":[ids], "places":[ids]} ]   each run builds a FRESH library (same pool, other listing)
+//! NODE = {"k":"inst","cell":c,"loc":LOC,"rh":b,"rv":b}          Ptr<Instance>, named "i{id}"
+//!      | {"k":"array","arr":ARR,"loc":LOC,"rh":b,"rv":b}       Ptr<ArrayInstance>, named "a{id}"
+//!      | {"k":"port","inst":j}                                  Placeable::Port{inst: node j, port:"P"}
+//! LOC  = {"abs":[xdir,xnum,ydir,ynum]} | {"rel":{"to":j,"side":S,"align":A,"sep":{"x":SEP?,"y":SEP?,"z":int?}}}
+//! S    = 0 Top | 1 Bottom | 2 Left | 3 Right ;  dir = 0 Horiz | 1 Vert
+//! A    = {"side":S} | "center" | "ports"
+//! SEP  = {"prim":[dir,n]} | {"db":n} | {"layer":[l,n]} | {"sizeof":c}   (c = -1: the parent cell itself)
+//! ARR  = {"unit":{"cell":c}|{"arr":ARR},"count":n,"sep":{..}}
+//! `instances` ids must be inst nodes (they go to `Layout::instances`), `places` ids go to `Layout::places`
+//! (inst nodes there become `Placeable::Instance`).
+//!
+//! Result: {"runs":[ R ]},  R = {"ok":[[name, node_id_or_-1, cell, LOCOUT, rh, rv] ..], "places":n}
+//!                             | {"err": text} | {"panic": text}
+//! LOCOUT = [xdir,xnum,ydir,ynum] | "rel"
 use l21h::{json, Value};
+use layout21tetris::array::{Array, ArrayInstance, Arrayable};
+use layout21tetris::cell::Cell;
+use layout21tetris::coords::{DbUnits, LayerPitches, PrimPitches, UnitSpeced, Xy};
+use layout21tetris::instance::Instance;
+use layout21tetris::layout::Layout;
+use layout21tetris::library::Library;
+use layout21tetris::outline::Outline;
+use layout21tetris::placement::{Align, Place, Placeable, RelativePlace, SepBy, Separation, Side};
+use layout21tetris::placer::Placer;
+use layout21tetris::raw::{self, Dir, Units};
+use layout21tetris::stack::{PrimitiveLayer, Stack};
+use layout21tetris::utils::Ptr;
+use layout21tetris::validate::ValidStack;
+use std::panic::{catch_unwind, AssertUnwindSafe};
 
-fn run(_case: &Value) -> Value {
-    json!({"harness_error": "not implemented"})
+fn dir(v: &Value) -> Dir {
+    if v.as_i64().unwrap() == 0 {
+        Dir::Horiz
+    } else {
+        Dir::Vert
+    }
+}
+fn dirnum(d: Dir) -> i64 {
+    match d {
+        Dir::Horiz => 0,
+        Dir::Vert => 1,
+    }
+}
+fn side(v: &Value) -> Side {
+    match v.as_i64().unwrap() {
+        0 => Side::Top,
+        1 => Side::Bottom,
+        2 => Side::Left,
+        3 => Side::Right,
+        _ => panic!("harness: bad side"),
+    }
+}
+fn pp(d: &Value, n: &Value) -> PrimPitches {
+    PrimPitches::new(dir(d), n.as_i64().unwrap() as isize)
+}
+
+/// the stack of `SampleStacks::empty()` (tests module of the crate), through the public API
+fn empty_stack() -> ValidStack {
+    let mut rawlayers = raw::Layers::default();
+    let boundary_layer = Some(
+        rawlayers.add(raw::Layer::from_pairs(0, &[(0, raw::LayerPurpose::Outline)]).unwrap()),
+    );
+    let stack = Stack {
+        units: Units::default(),
+        boundary_layer,
+        prim: PrimitiveLayer::new((100, 100).into()),
+        metals: Vec::new(),
+        vias: Vec::new(),
+        rawlayers: Some(Ptr::new(rawlayers)),
+    };
+    stack.validate().unwrap()
+}
+
+struct Ctx {
+    cells: Vec<Ptr<Cell>>,
+    parent_cell: Option<Ptr<Cell>>,
+}
+
+fn sepby(v: &Value, cx: &Ctx) -> Option<SepBy> {
+    if v.is_null() {
+        return None;
+    }
+    if let Some(p) = v.get("prim") {
+        return Some(SepBy::UnitSpeced(UnitSpeced::PrimPitches(pp(&p[0], &p[1]))));
+    }
+    if let Some(n) = v.get("db") {
+        return Some(SepBy::UnitSpeced(UnitSpeced::DbUnits(DbUnits(n.as_i64().unwrap() as isize))));
+    }
+    if let Some(p) = v.get("layer") {
+        return Some(SepBy::UnitSpeced(UnitSpeced::LayerPitches(LayerPitches::new(
+            p[0].as_u64().unwrap() as usize,
+            p[1].as_i64().unwrap() as isize,
+        ))));
+    }
+    if let Some(c) = v.get("sizeof") {
+        let c = c.as_i64().unwrap();
+        if c < 0 {
+            return Some(SepBy::SizeOf(cx.parent_cell.clone().expect("harness: parent cell not available")));
+        }
+        return Some(SepBy::SizeOf(cx.cells[c as usize].clone()));
+    }
+    panic!("harness: bad sep");
+}
+fn separation(v: &Value, cx: &Ctx) -> Separation {
+    Separation::new(
+        sepby(&v["x"], cx),
+        sepby(&v["y"], cx),
+        v["z"].as_i64().map(|z| z as isize),
+    )
+}
+fn array(v: &Value, cx: &Ctx, name: &str) -> Array {
+    let unit = if let Some(c) = v["unit"].get("cell") {
+        Arrayable::Instance(cx.cells[c.as_u64().unwrap() as usize].clone())
+    } else {
+        Arrayable::Array(Ptr::new(array(&v["unit"]["arr"], cx, &format!("{}_u", name))))
+    };
+    Array {
+        name: name.to_string(),
+        unit,
+        count: v["count"].as_u64().unwrap() as usize,
+        sep: separation(&v["sep"], cx),
+    }
+}
+
+enum Node {
+    Inst(Ptr<Instance>),
+    Arr(Ptr<ArrayInstance>),
+    Port(usize),
+}
+
+fn placeable(nodes: &Vec<Node>, j: usize) -> Placeable {
+    match &nodes[j] {
+        Node::Inst(p) => Placeable::Instance(p.clone()),
+        Node::Arr(p) => Placeable::Array(p.clone()),
+        Node::Port(i) => match &nodes[*i] {
+            Node::Inst(p) => Placeable::Port { inst: p.clone(), port: "P".into() },
+            _ => panic!("harness: port of a non-instance"),
+        },
+    }
+}
+
+fn loc_of(v: &Value, nodes: &Vec<Node>, cx: &Ctx) -> Place<Xy<PrimPitches>> {
+    if let Some(a) = v.get("abs") {
+        return Place::Abs(Xy::new(pp(&a[0], &a[1]), pp(&a[2], &a[3])));
+    }
+    let r = &v["rel"];
+    let align = match &r["align"] {
+        Value::String(s) if s == "center" => Align::Center,
+        Value::String(_) => Align::Ports("A".into(), "B".into()),
+        a => Align::Side(side(&a["side"])),
+    };
+    Place::Rel(RelativePlace {
+        to: placeable(nodes, r["to"].as_u64().unwrap() as usize),
+        side: side(&r["side"]),
+        align,
+        sep: separation(&r["sep"], cx),
+    })
+}
+
+fn one_run(case: &Value, run: &Value) -> Value {
+    // ---- cells
+    let mut lib = Library::new("c09");
+    let mut cells = Vec::new();
+    for (k, c) in case["cells"].as_array().unwrap().iter().enumerate() {
+        let name = format!("c{}", k);
+        let cell = if c.is_null() {
+            Cell::new(name)
+        } else {
+            let xs: Vec<isize> = c["x"].as_array().unwrap().iter().map(|v| v.as_i64().unwrap() as isize).collect();
+            let ys: Vec<isize> = c["y"].as_array().unwrap().iter().map(|v| v.as_i64().unwrap() as isize).collect();
+            Cell::from(Layout::new(name, 0, Outline::new(&xs, &ys).expect("harness: bad outline")))
+        };
+        cells.push(lib.cells.add(cell));
+    }
+    let uses_parent = case["uses_parent_cell"].as_bool().unwrap_or(false);
+    // When a separation refers to the parent cell itself, the parent must exist before its layout is filled in.
+    let parent_ptr: Option<Ptr<Cell>> = if uses_parent {
+        Some(lib.cells.add(Cell::from(Layout::new("parent", 0, Outline::rect(100, 100).unwrap()))))
+    } else {
+        None
+    };
+    let cx = Ctx { cells, parent_cell: parent_ptr.clone() };
+    // ---- nodes: two passes, because relative places point at other nodes (possibly later ones, or themselves)
+    let jn = case["nodes"].as_array().unwrap();
+    let mut nodes: Vec<Node> = Vec::new();
+    for (id, n) in jn.iter().enumerate() {
+        let placeholder: Place<Xy<PrimPitches>> = (0, 0).into();
+        match n["k"].as_str().unwrap() {
+            "inst" => nodes.push(Node::Inst(Ptr::new(Instance {
+                inst_name: format!("i{}", id),
+                cell: cx.cells[n["cell"].as_u64().unwrap() as usize].clone(),
+                loc: placeholder,
+                reflect_horiz: n["rh"].as_bool().unwrap(),
+                reflect_vert: n["rv"].as_bool().unwrap(),
+            }))),
+            "array" => nodes.push(Node::Arr(Ptr::new(ArrayInstance {
+                name: format!("a{}", id),
+                array: Ptr::new(array(&n["arr"], &cx, &format!("arr{}", id))),
+                loc: placeholder,
+                reflect_horiz: n["rh"].as_bool().unwrap(),
+                reflect_vert: n["rv"].as_bool().unwrap(),
+            }))),
+            "port" => nodes.push(Node::Port(n["inst"].as_u64().unwrap() as usize)),
+            _ => panic!("harness: bad node kind"),
+        }
+    }
+    for (id, n) in jn.iter().enumerate() {
+        match &nodes[id] {
+            Node::Inst(p) => {
+                let l = loc_of(&n["loc"], &nodes, &cx);
+                p.write().unwrap().loc = l;
+            }
+            Node::Arr(p) => {
+                let l = loc_of(&n["loc"], &nodes, &cx);
+                p.write().unwrap().loc = l;
+            }
+            Node::Port(_) => (),
+        }
+    }
+    // ---- the parent layout
+    let mut parent = Layout::new("parent", 0, Outline::rect(100, 100).unwrap());
+    for j in run["instances"].as_array().unwrap() {
+        match &nodes[j.as_u64().unwrap() as usize] {
+            Node::Inst(p) => parent.instances.push(p.clone()),
+            _ => panic!("harness: non-instance in `instances`"),
+        }
+    }
+    for j in run["places"].as_array().unwrap() {
+        parent.places.push(placeable(&nodes, j.as_u64().unwrap() as usize));
+    }
+    let parent_ptr = match parent_ptr {
+        Some(p) => {
+            p.write().unwrap().layout = Some(parent);
+            p
+        }
+        None => lib.cells.add(parent),
+    };
+    // ---- the code under test
+    let stack = empty_stack();
+    let res = catch_unwind(AssertUnwindSafe(|| Placer::place(lib, stack)));
+    match res {
+        Err(p) => {
+            let msg = if let Some(s) = p.downcast_ref::<&str>() {
+                s.to_string()
+            } else if let Some(s) = p.downcast_ref::<String>() {
+                s.clone()
+            } else {
+                "panic".to_string()
+            };
+            json!({ "panic": msg })
+        }
+        Ok(Err(e)) => {
+            let mut s = format!("{:?}", e);
+            s.truncate(160);
+            json!({ "err": s })
+        }
+        Ok(Ok((_lib, _stack))) => {
+            let pc = parent_ptr.read().unwrap();
+            let layout = pc.layout.as_ref().unwrap();
+            let mut out = Vec::new();
+            for ip in layout.instances.iter() {
+                let i = ip.read().unwrap();
+                let id: i64 = nodes
+                    .iter()
+                    .position(|n| matches!(n, Node::Inst(p) if p == ip))
+                    .map(|x| x as i64)
+                    .unwrap_or(-1);
+                let cell: i64 = cx.cells.iter().position(|c| *c == i.cell).map(|x| x as i64).unwrap_or(-1);
+                let loc = match &i.loc {
+                    Place::Abs(xy) => json!([dirnum(xy.x.dir), xy.x.num as i64, dirnum(xy.y.dir), xy.y.num as i64]),
+                    Place::Rel(_) => json!("rel"),
+                };
+                out.push(json!([i.inst_name, id, cell, loc, i.reflect_horiz, i.reflect_vert]));
+            }
+            json!({ "ok": out, "places": layout.places.len() })
+        }
+    }
+}
+
+fn run(case: &Value) -> Value {
+    let runs: Vec<Value> = case["runs"].as_array().expect("runs").iter().map(|r| one_run(case, r)).collect();
+    json!({ "runs": runs })
 }
 
 fn main() {
